@@ -13,5 +13,5 @@ Definition z_eqb := Z.eqb.
 
 Extraction "../ocaml/c04/model.ml"
   z_add z_mul z_opp z_div_eucl z_ltb z_eqb
-  gsub_apply_custom gsub_apply_lookup layout_parse match_glyph from_lookup_flag
+  gsub_apply_custom gsub_apply_default gsub_apply_lookup layout_parse match_glyph from_lookup_flag
   coverage_value class_value skip_spec flag_combines_attach_and_set singlesubst.
